@@ -20,6 +20,21 @@ HERE = os.path.dirname(os.path.dirname(os.path.abspath(__file__)))
 N_SHARDS = int(os.environ.get('VERIF_SHARDS', '16'))
 
 
+class _NoDaemonProcess(mp.get_context('fork').Process):
+    """Pool workers that may have children (pints.ParallelEvaluator forks inside a check)."""
+    @property
+    def daemon(self):
+        return False
+
+    @daemon.setter
+    def daemon(self, value):
+        pass
+
+
+class _NoDaemonContext(type(mp.get_context('fork'))):
+    Process = _NoDaemonProcess
+
+
 def _load(prop):
     return importlib.import_module('vf.props.%s' % prop.lower())
 
@@ -372,7 +387,7 @@ def main(argv=None):
         k = max(1, (len(extra) + 4 * N_SHARDS - 1) // (4 * N_SHARDS))
         chunks = [(prop, extra[i:i + k]) for i in range(0, len(extra), k)]
     limit = float(os.environ.get('VERIF_WALL', '1500' if tier == 'quick' else '14000'))
-    ctx = mp.get_context('fork')
+    ctx = _NoDaemonContext()
     results = []
     with ctx.Pool(N_SHARDS) as pool:
         r1 = pool.map_async(run_shard, jobs, chunksize=1)
